@@ -29,7 +29,10 @@ fn wide_bounds() -> &'static [Magnitude] {
 
 pub fn run(out: &str, writers: usize, n: usize, stream: u64, bursts: usize) {
     let seed = vrt::seed_from_env().wrapping_mul(77).wrapping_add(stream);
-    let names = fresh_names(3); // e1: pull-model, e2: push-model, e3: pull-model, wide; every writer owns one of each
+    // e1: pull-model, e2: push-model, e3: pull-model, wide; e4: like e3 but NEVER observed beyond its largest bound (its
+    // overflow bucket is 0 at all times: a report that reads its count before its buckets must still say 0, not a wrapped
+    // or negative remainder); every writer owns one of each
+    let names = fresh_names(4);
     let stop = Arc::new(AtomicBool::new(false));
     let start = Arc::new(Barrier::new(writers + 2));
     let mut handles = Vec::new();
@@ -43,6 +46,7 @@ pub fn run(out: &str, writers: usize, n: usize, stream: u64, bursts: usize) {
             let pull = Event::builder().name(names[0].clone()).histogram(BOUNDS).build();
             let push = Event::builder().name(names[1].clone()).histogram(BOUNDS).pusher(&pusher).build();
             let wide = Event::builder().name(names[2].clone()).histogram(wide_bounds()).build();
+            let wide0 = Event::builder().name(names[3].clone()).histogram(wide_bounds()).build();
             let t = w + 1;
             let mut op = |log: &mut Vec<(u64, Value)>, e: usize, m: i64, cnt: usize| {
                 let a = json!({"k":"obs","t":t,"e":e,"m":limbs(m),"n":cnt});
@@ -106,13 +110,14 @@ pub fn run(out: &str, writers: usize, n: usize, stream: u64, bursts: usize) {
             // every observation of the burst is invoked after the burst's inv stamp and returns before its res stamp).
             // This is the schedule of the model's counterexample (MetricsConc, InfBucketLowOk): a report that reads a
             // bag's count before its buckets while in-bucket observations land in between.
-            for _ in 0..bursts {
+            for bi in 0..bursts {
                 let cnt = 4_000_usize;
                 let m = (WIDE as i64) * 10;
-                let a = json!({"k":"obs","t":t,"e":3,"m":limbs(m),"n":cnt,"burst":true});
+                let e = if bi % 2 == 0 { 3 } else { 4 };
+                let a = json!({"k":"obs","t":t,"e":e,"m":limbs(m),"n":cnt,"burst":true});
                 let i = stamp();
                 for _ in 0..cnt {
-                    wide.observe(m);
+                    if e == 3 { wide.observe(m) } else { wide0.observe(m) }
                 }
                 let r = stamp();
                 let mut x = a.clone();
@@ -167,7 +172,7 @@ pub fn run(out: &str, writers: usize, n: usize, stream: u64, bursts: usize) {
     let b: Vec<[u16; 4]> = BOUNDS.iter().map(|&m| limbs(m)).collect();
     let wb: Vec<[u16; 4]> = wide_bounds().iter().map(|&m| limbs(m)).collect();
     tr.emit(&json!({"ev":"cfg","writers":writers,"reporters":2,
-        "events":[{"kind":"pull","bounds":b},{"kind":"push","bounds":b},{"kind":"pull","bounds":wb}]}));
+        "events":[{"kind":"pull","bounds":b},{"kind":"push","bounds":b},{"kind":"pull","bounds":wb},{"kind":"pull","bounds":wb}]}));
     for (_, v) in all {
         tr.emit(&v);
     }
